@@ -19,7 +19,8 @@ import (
 type Partition struct {
 	From, To time.Duration
 	A        map[string]bool
-	OneWay   bool // only A -> others is cut
+	B        map[string]bool // when set: only the links between A and B are cut
+	OneWay   bool            // only A -> others is cut
 }
 
 // Config is the fault schedule.
@@ -89,6 +90,13 @@ func (n *Net) cut(from, to string, t time.Duration) bool {
 			continue
 		}
 		fa, ta := p.A[from], p.A[to]
+		if len(p.B) > 0 {
+			// a pair cut: between a member of A and a member of B only
+			if (fa && p.B[to]) || (!p.OneWay && ta && p.B[from]) {
+				return true
+			}
+			continue
+		}
 		if fa != ta {
 			if p.OneWay && !fa {
 				continue
